@@ -3,8 +3,10 @@
 usage: tools/verify_seeded.py <dir with patch.diff + demo.py> <property id> [tier]
 Creates a scratch worktree of /repo HEAD under /tmp, never touches /repo's working tree."""
 import json, os, shutil, subprocess, sys, tempfile
-src, prop = os.path.abspath(sys.argv[1]), sys.argv[2]
-tier = sys.argv[3] if len(sys.argv) > 3 else 'quick'
+args = [a for a in sys.argv[1:] if not a.startswith('--')]
+check_only = '--check-only' in sys.argv
+src, prop = os.path.abspath(args[0]), args[1]
+tier = args[2] if len(args) > 2 else 'quick'
 base = tempfile.mkdtemp(prefix='vf_seed_')
 wt = os.path.join(base, 'repo')
 res = {'property': prop, 'dir': src}
@@ -13,15 +15,19 @@ def run(cmd, **kw):
 try:
     run(['git', '-C', '/repo', 'worktree', 'add', '-q', '--detach', wt, 'HEAD'])
     env = dict(os.environ, PYTHONPATH=wt, PYTHONDONTWRITEBYTECODE='1')
-    d0 = run(['/venv/bin/python', os.path.join(src, 'demo.py')], cwd=wt, env=env, timeout=900)
-    res['demo_without_change_exit'] = d0.returncode
-    a = run(['git', '-C', wt, 'apply', os.path.join(src, 'patch.diff')])
+    if not check_only:
+        d0 = run(['/venv/bin/python', os.path.join(src, 'demo.py')], cwd=wt, env=env, timeout=900)
+        res['demo_without_change_exit'] = d0.returncode
+    a = run(['git', '-C', wt, 'apply', '--3way', os.path.join(src, 'patch.diff')])
+    if a.returncode != 0:
+        a = run(['git', '-C', wt, 'apply', os.path.join(src, 'patch.diff')])
     res['patch_applies'] = a.returncode == 0
-    t = run(['/venv/bin/python', '-m', 'pytest', '-q', '-p', 'no:cacheprovider', 'test'], cwd=wt, env=env, timeout=900)
-    res['tests'] = t.stdout.decode().strip().splitlines()[-1][:60]
-    d1 = run(['/venv/bin/python', os.path.join(src, 'demo.py')], cwd=wt, env=env, timeout=900)
-    res['demo_with_change_exit'] = d1.returncode
-    res['demo_with_change_tail'] = d1.stdout.decode()[-300:]
+    if not check_only:
+        t = run(['/venv/bin/python', '-m', 'pytest', '-q', '-p', 'no:cacheprovider', 'test'], cwd=wt, env=env, timeout=900)
+        res['tests'] = t.stdout.decode().strip().splitlines()[-1][:60]
+        d1 = run(['/venv/bin/python', os.path.join(src, 'demo.py')], cwd=wt, env=env, timeout=900)
+        res['demo_with_change_exit'] = d1.returncode
+        res['demo_with_change_tail'] = d1.stdout.decode()[-300:]
     env2 = dict(os.environ, VERIF_REPO=wt, VERIF_EVIDENCE_DIR=os.path.join(base, 'ev'), VERIF_REPLAY_DIR=os.path.join(base, 'rp'))
     c = run(['/verif/check', prop, tier], cwd='/verif', env=env2, timeout=7200)
     out = c.stdout.decode()
